@@ -88,7 +88,7 @@ def compose_fwd(table, mode, N, L, J, h0, h1, which="ref"):
     return X, highs
 
 
-def extract_fwd_multi(mode, N, L, J, h0, h1, f32=False):
+def extract_fwd_multi(mode, N, L, J, h0, h1, f32=False, grad=False):
     import torch
     import pytorch_wavelets as pw
     dwtlib.f64()
@@ -97,7 +97,10 @@ def extract_fwd_multi(mode, N, L, J, h0, h1, f32=False):
     try:
         X = torch.eye(N).reshape(N, 1, N)
         m = pw.DWT1DForward(J=J, wave=(h0, h1), mode=mode)
+        if grad:
+            X = X.requires_grad_(True)
         yl, yh = m(X)
+        yl, yh = yl.detach(), [y.detach() for y in yh]
         if f32 and (yl.dtype != torch.float32 or any(y.dtype != torch.float32 for y in yh)):
             return dwtlib.Raised(TypeError("float32 input, outputs %s" % [str(yl.dtype)] + [str(y.dtype) for y in yh]))
     except Exception as e:   # noqa
@@ -145,7 +148,7 @@ def analysis_multi_level(rep, fnd, table, records, pid, api="DWT1DForward"):
             rep.count("multi_level_skipped_outside_table")
             continue
         h0, h1 = dwtlib.int_taps(rng, L), dwtlib.int_taps(rng, L)
-        obs = extract_fwd_multi(mode, N, L, J, h0, h1)
+        obs = extract_fwd_multi(mode, N, L, J, h0, h1, grad=(n_ok % 3 == 2))      # every third: the input requires grad (graph recorded)
         rep.validated()
         rep.nontriv((api, mode, N, L, J))
         if isinstance(obs, dwtlib.Raised):
@@ -235,7 +238,7 @@ def compose_fwd2(table, rec, taps, which="ref"):
     return X, highs
 
 
-def extract_fwd2(mode, H, W, J, wave, f32=False):
+def extract_fwd2(mode, H, W, J, wave, f32=False, grad=False):
     import torch
     import pytorch_wavelets as pw
     dwtlib.f64()
@@ -244,7 +247,10 @@ def extract_fwd2(mode, H, W, J, wave, f32=False):
     try:
         X = torch.eye(H * W).reshape(H * W, 1, H, W)
         m = pw.DWTForward(J=J, wave=wave, mode=mode)
+        if grad:         # the input requires grad: the path through the autograd Functions while a graph is recorded
+            X = X.requires_grad_(True)
         yl, yh = m(X)
+        yl, yh = yl.detach(), [y.detach() for y in yh]
         if f32 and (yl.dtype != torch.float32 or any(y.dtype != torch.float32 for y in yh)):
             return dwtlib.Raised(TypeError("float32 input, outputs %s" % [str(yl.dtype)] + [str(y.dtype) for y in yh]))
     except Exception as e:   # noqa
@@ -278,7 +284,7 @@ def analysis_2d(rep, fnd, table, records, pid, api="DWTForward"):
             continue
         h0, h1 = dwtlib.int_taps(rng, Lc), dwtlib.int_taps(rng, Lc)
         taps = {"col": (h0, h1), "row": (h0, h1)}
-        obs = extract_fwd2(mode, H, W, J, (h0, h1))
+        obs = extract_fwd2(mode, H, W, J, (h0, h1), grad=(n_ok % 3 == 2))      # every third: the input requires grad (graph recorded)
         rep.validated()
         if H != W or H % 2 == 1 or H < 2 * Lc or J > 1:
             rep.nontriv((api, mode, H, W, Lc, J))
@@ -427,6 +433,8 @@ def adversarial_inputs(rng, shape):
     alt[..., ::2] = -1
     xs.append(alt)
     xs.append(rng.standard_normal(shape) * np.exp(rng.uniform(-12, 12, size=shape)))
+    # tiny amplitudes: for a linear map nothing is "numerically zero" (eps / allclose-style absolute thresholds)
+    xs.append(rng.standard_normal(shape) * 1e-30)
     return xs
 
 
@@ -726,7 +734,7 @@ def compose_inv2(table, rec, g, none, reading):
     return X, (h, w)
 
 
-def extract_inv2(rec, wave, none, dtype):
+def extract_inv2(rec, wave, none, dtype, grad=False):
     import torch
     import pytorch_wavelets as pw
     torch.set_default_dtype(torch.float32)
@@ -747,7 +755,10 @@ def extract_inv2(rec, wave, none, dtype):
         yh.append(t)
     try:
         m = pw.DWTInverse(wave=wave, mode=rec["mode"]).to(dt)
-        y = m((yl, yh))
+        if grad:         # the coefficients require grad: the path through the autograd Functions while a graph is recorded
+            yl = yl.requires_grad_(True)
+            yh = [t if t is None else t.requires_grad_(True) for t in yh]
+        y = m((yl, yh)).detach()
     except Exception as e:   # noqa
         return dwtlib.Raised(e)
     finally:
@@ -835,8 +846,14 @@ def numeric_inverse_vs_pywt(rep, pid, tier):
             except ValueError:
                 continue            # PyWavelets itself refuses (a one-sample level in reflect mode)
             coeffs = [rng.standard_normal((2, 2, s)) for s in shapes]      # [cA_J, cD_J, ..., cD_1]
-            ref = pywt.waverec(coeffs, wv, mode=mode, axis=-1)
             kform = names.index(name) * 7 + dwtlib.MODES.index(mode)
+            if kform % 3 == 1:         # tiny amplitudes: nothing is "numerically zero" for a linear map
+                coeffs = [c * 1e-30 for c in coeffs]
+            elif kform % 3 == 2:       # integer-valued bands whose entries cancel exactly (sum == 0 without being zero)
+                coeffs = [rng.integers(-5, 6, size=c.shape).astype(np.float64) for c in coeffs]
+                for c in coeffs:
+                    c.flat[-1] -= c.sum()
+            ref = pywt.waverec(coeffs, wv, mode=mode, axis=-1)
             wave, form = dwtlib.wave_form(name, kform, synthesis=True)
             mode_arg = "per" if (mode == "periodization" and kform % 2) else mode
             try:
@@ -851,6 +868,24 @@ def numeric_inverse_vs_pywt(rep, pid, tier):
                 continue
             bound = 64 * EPS64 * L * J * (2 * G) ** J * max(np.abs(c).max() for c in coeffs)
             err = np.abs(y - ref).max() if y.shape == ref.shape else np.inf
+            if err <= bound:
+                # a pyramid a forward transform would not produce but pywt.waverec accepts: the approximation one sample longer
+                # than the coarsest detail (the surplus sample is dropped) - as non-contiguous views of larger buffers
+                longer = np.concatenate([coeffs[0], rng.standard_normal(coeffs[0].shape[:-1] + (1,))], axis=-1)
+                try:
+                    refl = pywt.waverec([longer] + coeffs[1:], wv, mode=mode, axis=-1)
+                    big = torch.tensor(np.concatenate([longer, longer], axis=-1))
+                    yl_ = big[..., :longer.shape[-1]]                         # a view: not contiguous
+                    yh_ = [torch.tensor(np.stack([c, -c], axis=-1))[..., 0] for c in coeffs[1:][::-1]]     # strided views
+                    y2 = pw.DWT1DInverse(wave=wave, mode=mode_arg)((yl_, yh_)).numpy()
+                    e2 = np.abs(y2 - refl).max() if y2.shape == refl.shape else np.inf
+                except ValueError:
+                    e2 = 0.0          # PyWavelets itself refuses this shape
+                except Exception as e:   # noqa
+                    e2 = np.inf
+                if not e2 <= bound:
+                    err = e2
+                    form = form + "; approximation one sample longer than the coarsest detail, coefficients as strided views"
             n1 += 1
             if not err <= bound:
                 rep.violation("DWT1DInverse(%s given as %s, %s, J=%d, N=%d) differs from pywt.waverec by %.3g (rounding bound %.3g; shapes %s vs %s)"
@@ -864,6 +899,14 @@ def numeric_inverse_vs_pywt(rep, pid, tier):
                 continue
             c2 = [rng.standard_normal((1, 2) + tmpl[0].shape)] + [
                 tuple(rng.standard_normal((1, 2) + d.shape) for d in lev) for lev in tmpl[1:]]
+            if kform % 3 == 2:
+                c2 = [c2[0] * 1e-30] + [tuple(d * 1e-30 for d in lev) for lev in c2[1:]]
+            elif kform % 3 == 0:
+                def bal2(a):
+                    v = rng.integers(-5, 6, size=a.shape).astype(np.float64)
+                    v.flat[-1] -= v.sum()
+                    return v
+                c2 = [bal2(c2[0])] + [tuple(bal2(d) for d in lev) for lev in c2[1:]]
             ref = pywt.waverec2(c2, wv, mode=mode, axes=(-2, -1))
             try:
                 yh = [torch.tensor(np.stack(lev, axis=2)) for lev in c2[1:][::-1]]
@@ -876,7 +919,8 @@ def numeric_inverse_vs_pywt(rep, pid, tier):
                 rep.violation("DWTInverse(%s given as %s, %s) raised %r on a random %dx%d pyramid" % (name, form2, mode_arg, e, H, W),
                               {"api": "DWTInverse", "check": "numeric", "cfg": dict(wavelet=name, mode=mode, H=H, W=W, J=J2)})
                 continue
-            bound = 64 * EPS64 * L * L * J2 * (2 * G) ** (2 * J2) * max(np.abs(c2[0]).max(), 4.0)
+            cmax2 = max([float(np.abs(c2[0]).max())] + [float(np.abs(d).max()) for lev in c2[1:] for d in lev])
+            bound = 64 * EPS64 * L * L * J2 * (2 * G) ** (2 * J2) * 4.0 * cmax2
             err = np.abs(y - ref).max() if y.shape == ref.shape else np.inf
             n2 += 1
             if not err <= bound:
